@@ -240,7 +240,7 @@ theorem shapeOf_run (cfg : Cfg) (fails : Nat → Bool) (hIO : cfg.keepIO = true)
     by_cases hb : (place mode o.exe).byValue = true
     · simp only [hb, if_true, mergeOrFail]
       split
-      · rfl
+      · simp only [shapeOf, shapeOfKids_pushKids]; rfl
       · obtain ⟨h1, h2⟩ := hk (.honour true)
         simp only [mergeBack, hIO, hKE, hDD, if_true, h2, rewireAll_nil, shapeOf, h1]
         rfl
